@@ -1,12 +1,57 @@
 /-
 ArtModel.Ops.Vat — protocol handler(s) for the `vat` operation family.
 Core Lean only.  `none` = malformed line (the driver prints `bad-op`).
+
+  vat F <matrix>   entries = 16-hex-digit IEEE doubles, rows `|`, entries `,`
+  vat R <matrix>   entries = exact rationals `p/q`
+  →  idx=<comma nats> out=<matrix, same encoding>
+
+`F`: the order logic (`vat`) runs on the sign-magnitude integer keys of the
+doubles (`keyOfBits`; `-0`/`+0` share a key, exactly as IEEE `<` sees them), i.e.
+at `α := Int`, the instance the C20 theorems cover verbatim.  The output matrix
+is printed with the *original* bit patterns: it is `ixSub` (the model's
+`np.ix_`, polymorphic in the entry type) of the hex matrix by the model's index
+vector, and the line is refused (`coherence-error`) unless its keys are exactly
+the model's output matrix.
 -/
 import ArtModel.Driver
+import ArtModel.VAT
 
 namespace Art.Ops
+open Art.Drv
+
+def isSquareB {β : Type} (D : List (List β)) : Bool := D.all (fun r => r.length == D.length)
+
+def showStrMat (m : List (List String)) : String :=
+  if m.isEmpty then "-"
+  else "|".intercalate (m.map (fun r => if r.isEmpty then "-" else ",".intercalate r))
+
+def vatF (s : String) : Option String := do
+  let S : List (List String) := (splitList s "|").map (fun r => splitList r)
+  let K ← S.mapM (fun r => r.mapM parseKey)
+  if !isSquareB S then some "bad-shape"
+  else
+    match K.mapM (fun r => r.mapM id) with
+    | none => some "nan-input"   -- NaN is not a value of the order-only model
+    | some K =>
+      let (idx, outK) := Art.VAT.vat K
+      let outS := Art.VAT.ixSub S idx idx
+      if outS.map (fun r => r.map (fun t => (parseKey t).join)) == outK.map (fun r => r.map some) then
+        some s!"idx={showNats idx} out={showStrMat outS}"
+      else some "coherence-error"
+
+def vatR (s : String) : Option String := do
+  let D ← parseMat (α := Rat) s
+  if !isSquareB D then some "bad-shape"
+  else
+    let (idx, out) := Art.VAT.vat D
+    some s!"idx={showNats idx} out={showMat out}"
 
 /-- handler for lines starting with `vat `; `a` = the remaining space-separated fields -/
-def vat (_a : List String) : Option String := none
+def vat (a : List String) : Option String :=
+  match a with
+  | ["F", m] => vatF m
+  | ["R", m] => vatR m
+  | _ => none
 
 end Art.Ops
